@@ -500,7 +500,10 @@ class BitString(DERType):
         if not content or content[0] > 7:
             raise ASN1DecodeError('Invalid unused bit count')
 
-        return cls(content[1:], unused=content[0])
+        try:
+            return cls(content[1:], unused=content[0])
+        except ASN1EncodeError as exc:
+            raise ASN1DecodeError(str(exc)) from None
 
 
 @DERTag(IA5_STRING)
